@@ -60,6 +60,14 @@ pub fn gen_history(seed: u64, k: usize) -> (GenCfg, Vec<Op>) {
         cfg.keys = vec!["k".into()];
         cfg.simple_values = true;
     }
+    // Every fourth history carries vector writes inside its transactions; the vector-search view
+    // is then part of every dump (vectors of acknowledged transactions are state, vectors of
+    // failed or unfinished ones are not).
+    // (kept apart from index histories so that a disagreement has one cause)
+    if k % 4 == 3 && !index_heavy {
+        cfg.vectors = true;
+        cfg.op_weights[3] = 0;
+    }
     let cfg2 = cfg.clone();
     let mut g = HistoryGen::new(&cfg2);
     let mut h = Vec::new();
@@ -108,6 +116,9 @@ pub fn full_dump(db: &Db, cfg: &GenCfg, iv: &IndexView) -> Facts {
         Ok(snap) => {
             let mut f = dump_snapshot(&snap, &uni);
             f.extend(index_facts(&snap, &iv.indexes, &iv.values));
+            if cfg.vectors {
+                f.extend(crate::storemon::vector::vector_facts(db, cfg.vector_dim, 50));
+            }
             f
         }
         Err(p) => {
@@ -310,9 +321,9 @@ pub fn judge_image(
             let older = rec.lives.iter().find(|(cc, l)| *cc < info.acked && *l == d).map(|(cc, _)| *cc);
             // nearest candidate for the diff
             let cand = rec.lives.iter().filter(|(cc, _)| *cc >= info.acked && *cc <= info.started).map(|(_, l)| l).min_by_key(|l| {
-                // nearest = fewest differences in the graph views first, index view second
+                // nearest = fewest differences in the graph views first, index and vector views second
                 let df = diff_facts(l, &d, 1000);
-                (df.iter().filter(|(k, _, _)| !k.starts_with("x/")).count(), df.len())
+                (df.iter().filter(|(k, _, _)| !k.starts_with("x/") && !k.starts_with("vs/")).count(), df.len())
             });
             let diff = cand.map(|l| diff_facts(l, &d, 10)).unwrap_or_default();
             if let Some(o) = older {
